@@ -26,6 +26,11 @@ def _mc(chk: Check) -> None:
     if not tlc.tlc_ok(res):
         raise Machinery(f"MC_RecordBatch failed:\n{res['out'][-2500:]}")
     chk.add_tlc(f"MC_RecordBatch/{cfg}", res)
+    if chk.tier == "thorough":
+        res = tlc.run_tlc("MC_RecordBatch", cfg="MC_RecordBatch_pairs.cfg", workers=16, timeout=6 * 3600, xmx="8g")
+        if not tlc.tlc_ok(res):
+            raise Machinery(f"MC_RecordBatch (pairs) failed:\n{res['out'][-2500:]}")
+        chk.add_tlc("MC_RecordBatch/MC_RecordBatch_pairs.cfg", res)
 
 
 def _slices(n: int, k: int):
